@@ -20,7 +20,7 @@ func (l *UnwrapAggPlanner) Process(ctx *shared.PlannerContext,
 
 func (l *UnwrapAggPlanner) initStream(ctx *shared.PlannerContext, stream *aggOpStream) {
 	switch l.Function {
-	case "first_over_time":
+	case "first_over_time", "last_over_time":
 		// timestamp of the value held for each window
 		stream.ts = make([]int64, len(stream.values)/2)
 	}
@@ -55,8 +55,11 @@ func (l *UnwrapAggPlanner) addValue(ctx *shared.PlannerContext, entry *shared.Lo
 			stream.ts[idx/2] = entry.TimestampNS
 		}
 	case "last_over_time":
-		stream.values[idx] = entry.Value
-		stream.values[idx+1] = 1
+		if stream.values[idx+1] == 0 || entry.TimestampNS >= stream.ts[idx/2] {
+			stream.values[idx] = entry.Value
+			stream.values[idx+1] = 1
+			stream.ts[idx/2] = entry.TimestampNS
+		}
 	}
 }
 
